@@ -24,7 +24,7 @@ def run(ctx):
     from joserfc import jws
     from joserfc import rfc7797 as r97
     from joserfc.jwk import JWKRegistry, KeySet
-    ok, log = ctx.prove()
+    ok, log = ctx.prove(extra_targets=["model/C07Cases.vo"])
     rng = ctx.rng
     K = J.keys()
     fixed, _ = detect_fixed()
